@@ -32,3 +32,6 @@ import KestrelProofs.Flows.commands_rs_encrypt
 import KestrelProofs.Flows.keyring_rs_lock_private_key
 import KestrelProofs.Flows.keyring_rs_unlock_private_key
 import KestrelProofs.Flows.keyring_rs_get_name_from_key
+import KestrelProofs.Flows.pure_crypto
+import KestrelProofs.Flows.pure_cli
+import KestrelProofs.Flows.pure_ffi
